@@ -130,7 +130,9 @@ pub fn run(ctx: &Ctx) -> Outcome {
                     // ---- zeroize: drop as the terminal transition --------------------------------------
                     if zeroize && cfg.bs >= 8 && cfg.is_toy() {
                         let hits = std::cell::Cell::new(0u64);
-                        rep.case(|| {
+                        let unstable = std::cell::Cell::new(0u64);
+                        // one scan: build the object, run the history, drop it inside zeroed storage, look for secret windows
+                        let scan = || -> Option<String> {
                             let mut o = w.make(cfg, &key, &iv);
                             for &op in h {
                                 o.op(cfg, op, &data);
@@ -141,7 +143,6 @@ pub fn run(ctx: &Ctx) -> Outcome {
                                 // 8-byte windows; the only shorter secrets examined are the 4-byte integers of the 32-bit flavours
                                 // (counter, nonce chunks), and only when they have four distinct non-zero bytes
                                 let win = sec.len().min(8);
-                                let _ = name;
                                 if win < 8 && !(win == 4 && sec.iter().all(|b| *b != 0) && sec.iter().collect::<BTreeSet<_>>().len() == 4) {
                                     continue;
                                 }
@@ -149,11 +150,26 @@ pub fn run(ctx: &Ctx) -> Outcome {
                                     hits.set(hits.get() + 1);
                                 }
                                 if let Some(i) = leaked_window(&after, sec, win) {
-                                    return fail(format!("not_zeroized/{label}"), format!("{} in state [{}]: after drop the object's storage still contains bytes {}..{} of '{}' = {} (storage: {})", w.ty(), here, i, i + win, name, short(sec), short(&after)));
+                                    return Some(format!("{} in state [{}]: after drop the object's storage still contains bytes {}..{} of '{}' = {} (storage: {})", w.ty(), here, i, i + win, name, short(sec), short(&after)));
                                 }
+                            }
+                            None
+                        };
+                        rep.case(|| {
+                            // Bytes of the object that no field owns (padding, the payload of an `Option` that is `None`) hold
+                            // whatever the stack held; a window found there does not reproduce.  A field that is not wiped
+                            // reproduces every time: only a finding present in three scans out of three is a violation.
+                            if let Some(msg) = scan() {
+                                if scan().is_some() && scan().is_some() {
+                                    return fail(format!("not_zeroized/{label}"), msg);
+                                }
+                                unstable.set(unstable.get() + 1);
                             }
                             Ok(())
                         });
+                        if unstable.get() > 0 {
+                            rep.count("unstable_residue_not_reproduced", unstable.get());
+                        }
                         before_hits += hits.get();
                     }
                 }
